@@ -34,6 +34,10 @@ inductive KidShape where
   | oneText (d : Str)
   | many
 
+/-- `isBlankText` (component.go): a text node of HTML white space only - space, tab, LF, FF, CR - is layout between tags and is not
+    written; every other character, the no-break space and the other Unicode spaces included, is content -/
+def blankText (d : Str) : Bool := d.all (fun c => c == ' ' || c == '\t' || c == '\n' || c == '\x0c' || c == '\r')
+
 def kidShape : List Node → KidShape
   | [] => .none
   | [.text d] => .oneText d
@@ -43,7 +47,7 @@ mutual
 /-- `renderNodeWithContext(ctx, w, node, indent)`; `parent` is `ctx.CurrentTag()` -/
 def renderNode (parent : Str) (indent : Nat) : Node → Str
   | .text d =>
-    if trimSpace d == [] then [] else spaces indent ++ renderTextData (isRawTextTag parent) d
+    if blankText d then [] else spaces indent ++ renderTextData (isRawTextTag parent) d
   | .elem tag attrs kids =>
     let (vhtml, vtext) := contentAttrs attrs
     if vhtml != [] || vtext != [] then
